@@ -286,6 +286,28 @@ class RealSession:
 		proc = len(self.tr._Py2Cpp__procedure._Procedure__stacks)
 		return f"{res}|{','.join(self.loaded())}|{','.join(eps)}|{','.join(completed)}|{keys}|{deps}|{proc}"
 
+	def residue(self, unloaded: str | None) -> list[str]:
+		"""The three tables that know a module — the registry (Modules), the parsed sources (Entrypoints) and the symbol table with
+		its completed list (SymbolDB) — read independently of each other: nothing may know a module the registry does not list, and
+		after `unload m` none of them knows m."""
+		try:
+			loaded = self.loaded()
+			tables = {
+				'Entrypoints': list(self.eps._Entrypoints__entrypoints.keys()),
+				'SymbolDB keys': list(dict.fromkeys(k.split('#')[0] for k in self.db.keys())),
+				'SymbolDB completed': list(self.db._SymbolDB__completed),
+			}
+		except Exception as e:  # noqa: BLE001
+			return [f'reading the tables raised {canon(e)}']
+		out = []
+		if unloaded is not None and unloaded in loaded:
+			out.append(f'Modules still lists {unloaded} after unload')
+		for name, mods in tables.items():
+			left = [m for m in mods if m not in loaded]
+			if left:
+				out.append(f"{name} still knows {left}, which Modules does not list{' (just unloaded)' if unloaded in left else ''}")
+		return out
+
 	def snapshot(self, only: list[str]) -> dict[str, Any]:
 		"""Node classes and symbol objects of the given registered modules."""
 		snap: dict[str, Any] = {}
@@ -550,7 +572,30 @@ def gen_pool(rng: random.Random, p_bad: float) -> list[dict[str, Any]]:
 
 
 def gen_main(rng: random.Random, pool: list[dict[str, Any]], p_bad: float) -> dict[str, Any]:
-	return gen_module(rng, MAIN, list(pool), p_bad, [])
+	m = gen_module(rng, MAIN, list(pool), p_bad, [])
+	r = rng.random()
+	if r < 0.2:
+		# a submission that declares nothing: expression statements only (no symbol of its own ever reaches the symbol table)
+		m.update({'imports': [], 'classes': [], 'vars': [], 'crash': False, 'late': 0, 'exprs': [rng.randrange(100) for _ in range(rng.randint(1, 3))]})
+	elif r < 0.45:
+		m['exprs'] = [rng.randrange(100) for _ in range(rng.randint(1, 2))]
+	return m
+
+
+def nothing_declared(exprs: list[int]) -> dict[str, Any]:
+	return {'name': MAIN, 'ok': True, 'imports': [], 'classes': [], 'vars': [], 'exprs': exprs}
+
+
+def main_failing_in_imports(rng: random.Random, pool: list[dict[str, Any]]) -> dict[str, Any]:
+	"""A submission whose load dies while its IMPORTS are being loaded (before anything of its own is expanded): a missing file, or a
+	pool module that does not load (syntax error, unexpected exception, failing import of its own)."""
+	m = good_module(rng, MAIN, [e for e in pool if not e.get('stub')])
+	failing = [e['name'] for e in pool if not e['ok'] or e.get('crash')]
+	dep = rng.choice(failing) if failing and rng.random() < 0.5 else 'app.zz'
+	m['imports'] = [*m['imports'], (dep, f'{cls_prefix(dep)}0')]
+	if rng.random() < 0.5:
+		m['exprs'] = [rng.randrange(100)]
+	return m
 
 
 def render_source(mod: dict[str, Any]) -> str:
@@ -598,6 +643,8 @@ def render_source(mod: dict[str, Any]) -> str:
 	for v, ok in mod['vars']:
 		lines.append(f"{v}: {'int' if ok else 'Nope'} = 0")
 	lines += late_lines
+	# top-level expression statements: they declare nothing (no symbol), the text shows them
+	lines += [f'print({n})' for n in mod.get('exprs') or []]
 	if not lines:
 		lines.append('pass')
 	if not mod['ok']:
@@ -622,6 +669,11 @@ def desc_tokens(mod: dict[str, Any]) -> list[str]:
 		clss.append(f"{c['name']}/{','.join(ms)}" if ms else c['name'])
 	vs = ','.join(f"{v}:{1 if ok else 0}" for v, ok in mod['vars']) or '-'
 	return ['0' if not mod['ok'] else '2' if mod.get('crash') else '1', imps, ';'.join(clss) or '-', vs]
+
+
+def resubmit_tokens(mod: dict[str, Any]) -> list[str]:
+	"""The in-memory module as the model sees it (a fifth token only when it has expression statements)."""
+	return [*desc_tokens(mod), *([','.join(str(int(n)) for n in mod['exprs'])] if mod.get('exprs') else [])]
 
 
 def write_pool(proj: str, pool: list[dict[str, Any]]) -> None:
@@ -756,6 +808,12 @@ def gen_ops(rng: random.Random, pool: list[dict[str, Any]], n: int, p_bad: float
 			t = rng.choice(askers)
 			ops += [['transpile', t], ['transpile', t]]
 			continue
+		if rng.random() < 0.1:
+			# interactive: a submission that fails while its imports are loaded / that declares nothing, then ANOTHER text for the
+			# same module path (the second answer must come from the second text)
+			first = main_failing_in_imports(rng, pool) if rng.random() < 0.5 else nothing_declared([rng.randrange(100)])
+			ops += [['resubmit', first], ['resubmit', gen_main(rng, pool, 0.0)]]
+			continue
 		target = rng.choice(names)
 		if rng.random() < p_bad * 0.15:
 			target = rng.choice(['app.zz', *prelude_names])
@@ -788,8 +846,8 @@ def run_session(ctx: Ctx, pool: list[dict[str, Any]], ops: list[list[Any]], proj
 		ses = RealSession(proj, cache_dir)
 	except Exception as e:  # noqa: BLE001 - the property says a process can be set up: reported by the search
 		for op in ops:
-			lines.append('\t'.join(['resubmit', *desc_tokens(op[1])]) if op[0] == 'resubmit' else f'{op[0]}\t{op[1]}')
-		return {'proj': proj, 'lines': lines, 'real': [f'app-error:{canon(e)}'] * len(ops), 'results': [], 'frame_bad': [], 'reload_bad': [], 'memo_bad': [], 'imports_bad': [], 'crash': canon(e)}
+			lines.append('\t'.join(['resubmit', *resubmit_tokens(op[1])]) if op[0] == 'resubmit' else f'{op[0]}\t{op[1]}')
+		return {'proj': proj, 'lines': lines, 'real': [f'app-error:{canon(e)}'] * len(ops), 'results': [], 'frame_bad': [], 'reload_bad': [], 'memo_bad': [], 'residue_bad': [], 'imports_bad': [], 'crash': canon(e)}
 	real: list[str] = []
 	results: list[dict[str, Any]] = []
 	frame_bad: list[dict[str, Any]] = []
@@ -802,6 +860,8 @@ def run_session(ctx: Ctx, pool: list[dict[str, Any]], ops: list[list[Any]], proj
 	reload_seen: set[str] = set()
 	memo_bad: list[dict[str, Any]] = []
 	memo_mark = len(MEMO_LOG)
+	residue_bad: list[dict[str, Any]] = []
+	residue_seen: set[str] = set()
 	for i, op in enumerate(ops):
 		kind = op[0]
 		before = ses.loaded()
@@ -810,7 +870,7 @@ def run_session(ctx: Ctx, pool: list[dict[str, Any]], ops: list[list[Any]], proj
 		# (nothing runs between two ops: the snapshot after the previous op is the one before this op)
 		snap = prev_snap if frame_check else {}
 		if kind == 'resubmit':
-			lines.append('\t'.join(['resubmit', *desc_tokens(op[1])]))
+			lines.append('\t'.join(['resubmit', *resubmit_tokens(op[1])]))
 			k, payload = ses.resubmit(render_source(op[1]))
 			cur_main = op[1]
 		else:
@@ -818,6 +878,10 @@ def run_session(ctx: Ctx, pool: list[dict[str, Any]], ops: list[list[Any]], proj
 			k, payload = getattr(ses, kind)(op[1])
 		real.append(ses.observe(result_str(k, payload)))
 		after = ses.loaded()
+		for what in ses.residue(op[1] if kind == 'unload' else None):
+			if what not in residue_seen:
+				residue_seen.add(what)
+				residue_bad.append({'op': i, 'what': what})
 		memo_bad.extend({'op': i, **e} for e in MEMO_LOG[memo_mark:])
 		memo_mark = len(MEMO_LOG)
 		# bookkeeping for the classification of search findings (facts about the real run only)
@@ -873,7 +937,7 @@ def run_session(ctx: Ctx, pool: list[dict[str, Any]], ops: list[list[Any]], proj
 	lines += [f"imports\t{e['module']}" for e in edges]
 	real += [f"imports|{e['real']}" for e in edges]
 	return {'proj': proj, 'lines': lines, 'real': real, 'results': results, 'frame_bad': frame_bad, 'reload_bad': reload_bad, 'memo_bad': memo_bad,
-		'imports_bad': [e for e in edges if e['real'] != e['ast']]}
+		'residue_bad': residue_bad, 'imports_bad': [e for e in edges if e['real'] != e['ast']]}
 
 
 def ast_imports(source: str) -> str:
@@ -1129,7 +1193,7 @@ def norm_case(rec: dict[str, Any]) -> dict[str, Any]:
 		return {'name': m['name'], 'ok': bool(m['ok']), 'imports': [tuple(x) for x in m['imports']],
 			'classes': [{'name': c['name'], 'methods': [{'name': x['name'], 'call': tuple(x['call']) if x.get('call') else None, 'bad': bool(x.get('bad')), 'lam': bool(x.get('lam')),
 				**({'gen': x['gen']} if x.get('gen') else {}), **({'src': list(x['src'])} if x.get('src') else {})} for x in c['methods']]} for c in m['classes']],
-			'vars': [tuple(x) for x in m['vars']], **({'crash': True} if m.get('crash') else {}), **({'late': int(m['late'])} if m.get('late') else {})}
+			'vars': [tuple(x) for x in m['vars']], **({'crash': True} if m.get('crash') else {}), **({'late': int(m['late'])} if m.get('late') else {}), **({'exprs': [int(n) for n in m['exprs']]} if m.get('exprs') else {})}
 	pool = [norm_mod(m) for m in rec['pool']]
 	ops = [[o[0], norm_mod(o[1])] if o[0] == 'resubmit' else [o[0], o[1]] for o in rec['ops']]
 	return {'id': rec.get('id', '?'), 'pool': pool, 'ops': ops}
@@ -1153,6 +1217,7 @@ def case_class(case: dict[str, Any]) -> str:
 
 
 _RUNS: dict[str, dict[str, Any]] = {}
+_CASES: dict[str, dict[str, Any]] = {}
 # the generated library closure table (translate/gen_lib_closure.py: AST only), compared with what the real code registers
 LIB_TABLE: dict[str, Any] = {}
 
@@ -1187,6 +1252,7 @@ def case_warm(ctx: Ctx, case: dict[str, Any]) -> bool:
 
 def session_run(ctx: Ctx, case: dict[str, Any]) -> dict[str, Any]:
 	if case['id'] not in _RUNS:
+		_CASES[case['id']] = case
 		_RUNS[case['id']] = run_session(ctx, case['pool'], case['ops'], warm=case_warm(ctx, case))
 	return _RUNS[case['id']]
 
@@ -1316,6 +1382,19 @@ def search_memo(ctx: Ctx, cases: list[dict[str, Any]]) -> SearchResult:
 	res.cases += 1
 	res.distinct = res.cases
 	res.note = f'{len(MEMO_LOG)} recorded mutations; recording is installed: {_MEMO_TRACKED}'
+	return res
+
+
+def search_residue(ctx: Ctx, cases: list[dict[str, Any]]) -> SearchResult:
+	res = SearchResult('after every op: Entrypoints, SymbolDB keys and SymbolDB completed know only modules that Modules lists; after unload m none of the four knows m (each table read on its own)')
+	for case in cases:
+		run = session_run(ctx, case)
+		res.cases += len(case['ops'])
+		for b in run['residue_bad'][:1]:
+			ops = case['ops'][:b['op'] + 1]
+			shown = ' ; '.join(f"resubmit {render_source(o[1])!r}" if o[0] == 'resubmit' else f'{o[0]} {o[1]}' for o in ops[-3:])
+			res.findings.append(Finding(key='unload-residue', what=f"after op {b['op']} (.. {shown}): {b['what']}", replay={'case': case, **b}))
+	res.distinct = res.cases
 	return res
 
 
@@ -1513,9 +1592,25 @@ def search_interactive(ctx: Ctx) -> SearchResult:
 		f4 = good_module(rng, MAIN, list(pool))
 		f4['classes'] = [{'name': 'M0', 'methods': [{'name': 'g', 'call': None, 'bad': True, 'lam': False}]}]
 		failing.append(f4)
+		# .. failing while the imports are loaded (nothing of the submission itself has been expanded yet): a missing file, a file
+		# that does not parse
+		f5 = good_module(rng, MAIN, list(pool))
+		f5['imports'].append(('app.zz', 'Zz0'))
+		failing.append(f5)
+		unparsable = good_module(rng, 'app.c', [])
+		unparsable['ok'] = False
+		pool.append(unparsable)
+		f6 = good_module(rng, MAIN, list(pool[:3]))
+		f6['imports'].append(('app.c', 'C0'))
+		failing.append(f6)
 		ops: list[list[Any]] = [['resubmit', a], ['resubmit', a]]
 		for f in failing:
 			ops += [['resubmit', f], ['resubmit', a], ['resubmit', a2]]
+		# submissions that declare nothing (expression statements only), each with another text, then an ordinary one; and a failing
+		# submission directly followed by one that declares nothing
+		e1, e2 = rng.sample(range(100), 2)
+		ops += [['resubmit', nothing_declared([e1])], ['resubmit', nothing_declared([e2, e1])], ['resubmit', a],
+			['resubmit', f5], ['resubmit', nothing_declared([e2])], ['resubmit', f6], ['resubmit', {**a2, 'exprs': [e1]}], ['resubmit', a2]]
 		case = {'id': f'interactive#{n}', 'pool': pool, 'ops': ops}
 		run = session_run(ctx, case)
 		compare_with_fresh(ctx, res, case, run, [HASH_SEEDS[n % len(HASH_SEEDS)]], seen)
@@ -1725,6 +1820,8 @@ def run_checked(ctx: Ctx, before: str | None) -> int:
 			timed('audit', audit_hash_order),
 		]
 		# last: sees what every session of this run recorded
+		# every session of this run, also the ones of the Interactive search
+		searches.insert(3, timed('residue', search_residue, ctx, list(_CASES.values())))
 		searches.insert(3, timed('memo', search_memo, ctx, [c for c in [*corpus, *valid, *faulty] if c['id'] in _RUNS]))
 	if SKIPPED:
 		ctx.notes.append(f'skipped for the wall deadline of the run (counted, not waited for): {SKIPPED}')
@@ -1749,10 +1846,10 @@ def replay(ctx: Ctx, path: str) -> int:
 		compare_with_fresh(ctx, res, case, run, [HASH_SEEDS[0]], set())
 		for f in res.findings:
 			print(f'REPLAY finding key={f.key}: {f.what}')
-		for b in [*run['frame_bad'], *run['reload_bad'], *run['memo_bad'], *run['imports_bad']]:
+		for b in [*run['frame_bad'], *run['reload_bad'], *run['memo_bad'], *run['residue_bad'], *run['imports_bad']]:
 			print(f'REPLAY frame finding: {b}')
 		ctx.cleanup()
-		return 1 if res.findings or run['frame_bad'] or run['reload_bad'] or run['memo_bad'] or run['imports_bad'] else 0
+		return 1 if res.findings or run['frame_bad'] or run['reload_bad'] or run['memo_bad'] or run['residue_bad'] or run['imports_bad'] else 0
 	ctx2 = Ctx(PROP, rec.get('tier', 'quick'), int(rec.get('seed', 0)))
 	return run_again(ctx2)
 
